@@ -58,4 +58,14 @@ run C28 && mut C28 protocol/lavasession/consumer_session_manager.go '	cuToDecrea
 ' '	cuToDecrease := consumerSession.LatestRelayCu / 2
 '
 run C22 && mut C22 x/spec/types/expand.go '			if _, found := depends[index]; found {' '			if _, found := depends[index]; found && index != spec.Index {'
+run C28 && mut C28 protocol/lavasession/consumer_types.go '	cswp.Lock.Lock()
+	defer cswp.Lock.Unlock()
+	// add additional CU for virtual epochs
+	if (cswp.UsedComputeUnits + cu) > cswp.MaxComputeUnits*(virtualEpoch+1) {
+		return MaxComputeUnitsExceededError
+	}' '	if err := cswp.validateComputeUnits(cu, virtualEpoch); err != nil {
+		return MaxComputeUnitsExceededError
+	}
+	cswp.Lock.Lock()
+	defer cswp.Lock.Unlock()'
 exit 0
